@@ -184,6 +184,24 @@ fn dup_type_bases() -> Vec<Base> {
               (export "e" (func $l1)) (elem declare func $l0 $l1 $fi0))"#,
             false,
         ),
+        // an explicit rec group whose first member has structurally identical stand-alone twins
+        Base::from_wat(
+            "dup-types-rec-twins",
+            r#"(module (rec (type $ga (func)) (type $gb (struct (field i32)))) (type $t1 (func)) (type $t2 (func)) (type $t3 (func)) (type $p (func (param i32)))
+              (import "env" "fi0" (func $fi0 (type $t2)))
+              (func $l0 (type $t1) (i32.const 0x5F000000) drop (i32.const 0x51000000) drop (call $fi0))
+              (func $l1 (type $t3) (i32.const 0x5F000001) drop)
+              (func $l2 (type $ga) (i32.const 0x5F000002) drop)
+              (export "e" (func $l1)) (elem declare func $l0 $l1 $fi0))"#,
+            false,
+        ),
+        Base::from_wat(
+            "dup-types-rec-only",
+            r#"(module (rec (type $ga (func)) (type $gb (func))) (rec (type $gc (func)) (type $gd (func (param i32))))
+              (func $l0 (type $gb) (i32.const 0x5F000000) drop)
+              (func $l1 (type $gc) (i32.const 0x5F000001) drop))"#,
+            false,
+        ),
         Base::from_wat(
             "dup-types-3",
             r#"(module (type (func)) (type (func)) (type (func)) (type (func (result i32))) (type (func (result i32)))
@@ -194,10 +212,40 @@ fn dup_type_bases() -> Vec<Base> {
     ]
 }
 
+const FN_PLAN_WAT: &str = r#"(module (type (func (param i32))) (type (func (param i32) (result i32))) (type (func (param i32) (result i64))) (type (func (param i32) (result f32)))
+            (func (type 0)) (func (type 1) (i32.const 1)) (func (type 2) (i64.const 2)) (func (type 3) (f32.const 3)))"#;
+
+/// per function: 0 none, 1 entry, 2 exit, 3 both
+fn run_fn_plan(bytes: &[u8], plan: &[u8]) -> Vec<u8> {
+    use wirm::ir::id::FunctionID;
+    use wirm::opcode::Instrumenter;
+    use wirm::Opcode;
+    let mut module = Module::parse(bytes, false).expect("harness: base parses");
+    for (f, mode) in plan.iter().enumerate() {
+        if *mode == 0 {
+            continue;
+        }
+        let mut fm = module.functions.get_fn_modifier(FunctionID(f as u32)).expect("harness: local function");
+        if mode & 1 != 0 {
+            fm.func_entry();
+            fm.i32_const(0x7700 + f as i32);
+            fm.drop();
+            fm.finish_instr();
+        }
+        if mode & 2 != 0 {
+            fm.func_exit();
+            fm.i32_const(0x7800 + f as i32);
+            fm.drop();
+            fm.finish_instr();
+        }
+    }
+    module.encode()
+}
+
 pub fn check(tier: Tier) -> i32 {
     let mut run = Run::new("C04", tier, "model_checking");
-    let depth = tier.pick(2, 3);
-    let max_dev = tier.pick(1, 2);
+    let depth = tier.pick(3, 4);
+    let max_dev = tier.pick(2, 3);
     let mut bases = dup_type_bases();
     bases.extend(fn_bases().into_iter().filter(|b| ["fn-min", "fn+global-init", "fn-no-imports", "fn-mixed-imports"].contains(&b.name.as_str())));
     bases.extend(global_bases().into_iter().filter(|b| ["gl-min", "gl+export"].contains(&b.name.as_str())));
@@ -365,6 +413,50 @@ pub fn check(tier: Tier) -> i32 {
         run.add_counter("plans", plan_cases.len() as u64);
         schedules += 0;
     }
+    // third family: function-entry/exit probes on several functions of one module whose wrapper block
+    // types ([] -> results) do not exist yet, so that resolution has to add types - in which order?
+    {
+        let wat = FN_PLAN_WAT;
+        let bytes = wat::parse_str(wat).expect("harness: multi-function base parses");
+        // per function: 0 none, 1 entry, 2 exit, 3 both
+        let plans: Vec<Vec<u8>> = (1..256u32).map(|m| (0..4).map(|i| ((m >> (2 * i)) & 3) as u8).collect()).collect();
+        let results: Vec<(usize, Explored)> = plans
+            .par_iter()
+            .enumerate()
+            .map(|(i, plan)| {
+                let ex = explore_with(max_dev, &|s| {
+                    run_under(s, &|| run_fn_plan(&bytes, plan))
+                });
+                (i, ex)
+            })
+            .collect();
+        let mut n = 0u64;
+        for (i, ex) in results {
+            n += ex.schedules;
+            cps += ex.choice_points;
+            max_n = max_n.max(ex.max_n);
+            if !ex.sites.is_empty() {
+                with_choice += 1;
+            }
+            for s in ex.sites.iter() {
+                sites.insert(s.clone());
+            }
+            let n_exit = plans[i].iter().filter(|m| **m & 2 != 0).count();
+            let n_entry = plans[i].iter().filter(|m| **m & 1 != 0).count();
+            run.add_class("fn-plan", &format!("entry x{} exit x{}", n_entry, n_exit));
+            if let Some((sched, site, detail)) = &ex.mismatch {
+                run.add_mismatch(
+                    "function entry/exit plan x hash-order schedule",
+                    json!({"base_wat": wat, "plan_per_function": plans[i], "schedule": sched}),
+                    format!("hash-order-dependent encoded-bytes at {} [func-entry/exit on {} functions]", site.split(':').next().unwrap_or(site), plans[i].iter().filter(|m| **m != 0).count().min(2)),
+                    format!("{} under schedule {:?}", detail, sched),
+                    1,
+                );
+            }
+        }
+        run.add_evaluations("function entry/exit plan x hash-order schedules", n);
+        run.add_counter("function_entry_exit_plans", plans.len() as u64);
+    }
     run.add_evaluations("history x hash-order schedules", schedules);
     run.states = Some(histories.len() as u64);
     run.transitions = Some(schedules);
@@ -382,6 +474,30 @@ pub fn check(tier: Tier) -> i32 {
 }
 
 pub fn replay(case: &serde_json::Value) -> Vec<Mismatch> {
+    let sched_of = |v: &serde_json::Value| -> Vec<(usize, Vec<usize>)> { serde_json::from_value(v["schedule"].clone()).unwrap_or_default() };
+    if let Some(plan) = case.get("plan_per_function") {
+        let plan: Vec<u8> = serde_json::from_value(plan.clone()).unwrap_or_default();
+        let bytes = wat::parse_str(FN_PLAN_WAT).expect("harness: multi-function base parses");
+        let (a, _) = run_under(&[], &|| run_fn_plan(&bytes, &plan));
+        let (b, _) = run_under(&sched_of(case), &|| run_fn_plan(&bytes, &plan));
+        return if a != b { vec![Mismatch::new("hash-order-dependent encoded-bytes [func-entry/exit plan]", "identity schedule and the recorded schedule give different bytes")] } else { vec![] };
+    }
+    if case.get("program").is_some() {
+        use crate::props::lowering::{apply_and_encode, Api, Inj};
+        let prog: crate::prog::Program = match serde_json::from_value(case["program"].clone()) {
+            Ok(p) => p,
+            Err(e) => return vec![Mismatch::new("replay-case-unreadable", e.to_string())],
+        };
+        let plan: Vec<Inj> = serde_json::from_value(case["plan"].clone()).unwrap_or_default();
+        let bytes = crate::prog::emit(&prog).bytes;
+        let f = || match apply_and_encode(&bytes, &plan, Api::ModAt, 1) {
+            Ok(mut v) => v.remove(0),
+            Err((_, p)) => format!("panic {}", p.site()).into_bytes(),
+        };
+        let (a, _) = run_under(&[], &f);
+        let (b, _) = run_under(&sched_of(case), &f);
+        return if a != b { vec![Mismatch::new("hash-order-dependent encoded-bytes [instrumentation plan]", "identity schedule and the recorded schedule give different bytes")] } else { vec![] };
+    }
     let c: Case = match serde_json::from_value(case.clone()) {
         Ok(c) => c,
         Err(e) => return vec![Mismatch::new("replay-case-unreadable", e.to_string())],
